@@ -57,6 +57,7 @@ def absT (s : St) : In → Trigger
   | .rxCtrl .linktestRsp _ _ => .other
   | .rxCtrl .rejectReq _ _ => .other
   | .rxData .. => .other
+  | .rxDataQueued .. => .other
   | .apiSelect => .other
   | .apiDeselect => .other
   | .apiLinktest => .other
@@ -133,6 +134,9 @@ theorem C05_step_refines (s : St) (i : In) :
       · simp [withTransition, smCall_deselect_sel, afterTransition_conn]
   | rxData st f w sys dcd =>
     cases c <;> simp [step, absT, next, handleData]
+    split <;> simp [closeSys]
+  | rxDataQueued st f w sys dcd =>
+    cases c <;> simp [step, absT, next, handleData, handleDataQueued]
     split <;> simp [closeSys]
   | apiSelect => cases c <;> simp [step, absT, next, sendReq]
   | apiDeselect => cases c <;> simp [step, absT, next, sendReq]
@@ -325,33 +329,46 @@ example : (step .code ⟨.selected, false, false, 7, []⟩ (.rxCtrl .selectReq 5
 
 /-! ## the selected-state gate -/
 
-/-- **Gate.**  A data message received while not SELECTED is not delivered (neither to the application nor to a waiting requester),
-and on an established connection exactly one frame is written: Reject.req with the message's system bytes, byte 2 = 0 (the SType of a
-data message), byte 3 = 4 (entity not selected).  Nothing else changes.  Holds whether or not the message is catalogued or decodable. -/
-theorem C05_gate (d : Defects) (s : St) (st f : Int) (w : Bool) (sys : Int) (dcd : Bool) (hc : s.conn ≠ .selected) :
-    delivers (step d s (.rxData st f w sys dcd)).2 = []
-    ∧ (step d s (.rxData st f w sys dcd)).1 = s
-    ∧ (s.conn = .notSelected → (step d s (.rxData st f w sys dcd)).2 = [.tx SType.rejectReq.code sys Gen.HsmsSType.DATA_MESSAGE 4]) := by
+/-- a data message handled now: received on the live connection (`queued = false`), or dispatched from the queue where it waited behind
+a busy handler (`queued = true`) -/
+def dataIn (queued : Bool) (st f : Int) (w : Bool) (sys : Int) (dcd : Bool) : In :=
+  if queued then .rxDataQueued st f w sys dcd else .rxData st f w sys dcd
+
+/-- **Gate.**  A data message handled while not SELECTED — NOT SELECTED **or NOT CONNECTED**, freshly received or dispatched from the
+queue after the connection it came on was closed — is never delivered (neither to the application nor to a waiting requester) and
+changes nothing.  In NOT SELECTED exactly one frame is written: Reject.req with the message's system bytes, byte 2 = 0 (the SType of a
+data message), byte 3 = 4 (entity not selected).  In NOT CONNECTED no frame is written: a block dispatched from the queue puts that
+Reject.req into the send queue of the dead connection (`txBlocked`), a frame cannot arrive at all.  Holds whether or not the message is
+catalogued or decodable. -/
+theorem C05_gate (d : Defects) (s : St) (q : Bool) (st f : Int) (w : Bool) (sys : Int) (dcd : Bool) (hc : s.conn ≠ .selected) :
+    delivers (step d s (dataIn q st f w sys dcd)).2 = []
+    ∧ (step d s (dataIn q st f w sys dcd)).1 = s
+    ∧ (s.conn = .notSelected → (step d s (dataIn q st f w sys dcd)).2 = [.tx SType.rejectReq.code sys Gen.HsmsSType.DATA_MESSAGE 4])
+    ∧ (s.conn = .notConnected → txs (step d s (dataIn q st f w sys dcd)).2 = []
+        ∧ (q = true → (step d s (dataIn q st f w sys dcd)).2 = [.txBlocked SType.rejectReq.code sys Gen.HsmsSType.DATA_MESSAGE 4])) := by
   obtain ⟨c, dc, ac, ctr, opn⟩ := s
   cases c
-  · simp [step, delivers]
-  · simp [step, handleData, delivers, reject]
+  · cases q <;> simp [dataIn, step, handleDataQueued, delivers, txs]
+  · cases q <;> simp [dataIn, step, handleData, handleDataQueued, delivers, reject]
   · exact absurd rfl hc
 
-/-- non-vacuity: an uncatalogued, undecodable S99F1 with the W-bit while NOT SELECTED is rejected with its system bytes, reason 4 -/
-example : (step .code ⟨.notSelected, false, false, 7, []⟩ (.rxData 99 1 true 12 false)).2 = [.tx 7 12 0 4] := by decide
+/-- non-vacuity: an uncatalogued, undecodable S99F1 with the W-bit while NOT SELECTED is rejected with its system bytes, reason 4; the
+same block dispatched from the queue after the connection was closed is not delivered either -/
+example : (step .code ⟨.notSelected, false, false, 7, []⟩ (.rxData 99 1 true 12 false)).2 = [.tx 7 12 0 4]
+    ∧ (step .code ⟨.notConnected, false, false, 7, []⟩ (.rxDataQueued 1 1 true 102 true)).2 = [.txBlocked 7 102 0 4] := by decide
 
-/-- **SELECTED delivers exactly once.**  A data message received while SELECTED produces exactly one output: it is put on the queue of
-the requester waiting on its system bytes if it is a reply (even function code) and there is such a requester, otherwise handed to the
-application (`message_received`) — in particular a primary (odd function) whose system bytes collide with an open local transaction goes to
-the application; no frame is written and the connection state stays SELECTED.  Holds for every stream/function, W-bit and body. -/
-theorem C05_selected_delivers (d : Defects) (s : St) (st f : Int) (w : Bool) (sys : Int) (dcd : Bool) (hc : s.conn = .selected) :
-    (step d s (.rxData st f w sys dcd)).2 = [if f % 2 = 0 ∧ isOpen s sys = true then Out.deliverWaiter sys else Out.deliverApp sys]
-    ∧ (step d s (.rxData st f w sys dcd)).1.conn = .selected := by
+/-- **SELECTED delivers exactly once.**  A data message handled while SELECTED (received, or dispatched from the queue) produces exactly
+one output: it is put on the queue of the requester waiting on its system bytes if it is a reply (even function code) and there is such a
+requester, otherwise handed to the application (`message_received`) — in particular a primary (odd function) whose system bytes collide
+with an open local transaction goes to the application; no frame is written and the connection state stays SELECTED.  Holds for every
+stream/function, W-bit and body. -/
+theorem C05_selected_delivers (d : Defects) (s : St) (q : Bool) (st f : Int) (w : Bool) (sys : Int) (dcd : Bool) (hc : s.conn = .selected) :
+    (step d s (dataIn q st f w sys dcd)).2 = [if f % 2 = 0 ∧ isOpen s sys = true then Out.deliverWaiter sys else Out.deliverApp sys]
+    ∧ (step d s (dataIn q st f w sys dcd)).1.conn = .selected := by
   obtain ⟨c, dc, ac, ctr, opn⟩ := s
   simp only at hc; subst hc
-  simp only [step, handleData]
-  by_cases ho : f % 2 = 0 ∧ isOpen ⟨.selected, dc, ac, ctr, opn⟩ sys = true <;> simp [ho, closeSys]
+  cases q <;> simp only [dataIn, step, handleData, handleDataQueued] <;>
+    by_cases ho : f % 2 = 0 ∧ isOpen ⟨.selected, dc, ac, ctr, opn⟩ sys = true <;> simp [ho, closeSys]
 
 /-- non-vacuity: SELECTED with a requester waiting on 1001: a reply (S1F2) with these system bytes goes to the requester, a primary (S1F1)
 with the same system bytes and any message with other system bytes go to the application -/
@@ -365,16 +382,16 @@ theorem C05_history_responses (d : Defects) (s0 : St) (is : List In) :
     (∀ st sys status, isRequest st = true → s.conn ≠ .notConnected →
       txs (step d s (.rxCtrl st sys status)).2 =
         [if s.disconnecting then Out.tx SType.rejectReq.code sys st.code 4 else Out.tx (rspOf st).code sys 0 0])
-    ∧ (∀ st f w sys dcd, s.conn ≠ .selected → delivers (step d s (.rxData st f w sys dcd)).2 = []
-        ∧ (s.conn = .notSelected → (step d s (.rxData st f w sys dcd)).2 = [.tx SType.rejectReq.code sys Gen.HsmsSType.DATA_MESSAGE 4]))
-    ∧ (∀ st f w sys dcd, s.conn = .selected →
-        (step d s (.rxData st f w sys dcd)).2 = [if f % 2 = 0 ∧ isOpen s sys = true then Out.deliverWaiter sys else Out.deliverApp sys]) := by
+    ∧ (∀ q st f w sys dcd, s.conn ≠ .selected → delivers (step d s (dataIn q st f w sys dcd)).2 = []
+        ∧ (s.conn = .notSelected → (step d s (dataIn q st f w sys dcd)).2 = [.tx SType.rejectReq.code sys Gen.HsmsSType.DATA_MESSAGE 4]))
+    ∧ (∀ q st f w sys dcd, s.conn = .selected →
+        (step d s (dataIn q st f w sys dcd)).2 = [if f % 2 = 0 ∧ isOpen s sys = true then Out.deliverWaiter sys else Out.deliverApp sys]) := by
   intro s
   refine ⟨fun st sys status h1 h2 => C05_one_response d s st sys status h1 h2, ?_, ?_⟩
-  · intro st f w sys dcd h
-    exact ⟨(C05_gate d s st f w sys dcd h).1, (C05_gate d s st f w sys dcd h).2.2⟩
-  · intro st f w sys dcd h
-    exact (C05_selected_delivers d s st f w sys dcd h).1
+  · intro q st f w sys dcd h
+    exact ⟨(C05_gate d s q st f w sys dcd h).1, (C05_gate d s q st f w sys dcd h).2.2.1⟩
+  · intro q st f w sys dcd h
+    exact (C05_selected_delivers d s q st f w sys dcd h).1
 
 /-- non-vacuity: all three states are reachable by histories -/
 example : (final .code (St.init true 5) [.connect]).conn = .notSelected
